@@ -81,6 +81,11 @@ def gen_sessions(rng, count):
     ar = "mf(x) = x; mf(x, y, z) = x; mf(a1, a2, a3, a4, a5) = 1; mf(p, q, r, s, tt, u, v) = 2; mf(a1, a2, a3, a4, a5, a6, a7, a8, a9) = 3; mf(1, 2); delete mf(u, v); mf(); mf; mf(1,2,3,4)"
     out.append(dict(id="m0", tab=4, file=None, expr=ar, stdin=None))
     out.append(dict(id="m1", tab=4, file=None, expr=None, stdin=ar.split("; "), end=None, after=[]))
+    out.append(dict(id="m2", tab=4, file=None, expr="scale(e, i) = e*i; scale(2, 3); sc2(pi, tau, c, G, phi) = pi; sc2(1,2,3,4,5); sc3(sin, cos, tan) = sin; sc3(1,2,3); sinn; coss; tann; sih; Pi; taU", stdin=None))
+    out.append(dict(id="m3", tab=4, file=None, expr=None, stdin=["scale(e, i) = e*i", "scale(2, 3)", "sinn", "coss + tann", "atann", "ee", "ii"], end=None, after=[]))
+    out.append(dict(id="p0", tab=4, file=None, expr="1+1; identity(1e19); 2+2", stdin=None, aborts=True))
+    out.append(dict(id="p1", tab=4, file="1+1\nidentity(1e19)\n2+2\n", expr="3", stdin=None, aborts=True))
+    out.append(dict(id="p2", tab=4, file=None, expr=None, stdin=["1+1", "identity(1e19)", "2+2"], end=None, after=[], aborts=True))
     out.append(dict(id="w0", tab=4, file=None, expr="fib(0) = 0; fib(1) = 1; fib(k) = fib(k-1) + fib(k-2); fib(26); 1 + 1", stdin=None))
     out.append(dict(id="x0", tab=4, file=None, expr=None, stdin=["exit = 5", "exit * 2", "Exit + 1", "EXIT as km", "exit_code = 1", "exits", "quit", "q", "e", "ex", "exi", "bye", "x = exit", "x"], end="exit", after=["x"]))
     out.append(dict(id="x1", tab=4, file=None, expr=None, stdin=["w = 1  ", "1 +  ", "(w + 1  ", "\tw\t", "   1/0", "\t\t2 + nope", " \t #"], end=None, after=[]))
@@ -176,7 +181,7 @@ def run_front(ctx, repeat=1, cross_modes=True, vary_env=False):
     # positions, diagnostic details and printed text are the business of C14 / C08 / C15 / C18: the model comparison of
     # the sessions is on results and diagnostic kinds; the binary is compared with the in-process run byte for byte below
     P = props.proj_values()
-    a, b = judges.do_stream(ctx, "sessions-inprocess", (gen.hist_case(s["id"], session_texts(s), tab=s["tab"]) for s in sessions), P)
+    a, b = judges.do_stream(ctx, "sessions-inprocess", (gen.hist_case(s["id"], session_texts(s), tab=s["tab"]) for s in sessions if not s.get("aborts")), P)
     mism = 0
     nondet = 0
     envs = [None]
@@ -204,13 +209,15 @@ def run_front(ctx, repeat=1, cross_modes=True, vary_env=False):
         rc, so, se = outs[0]
         rep.count("front:mode:%s" % ("expr" if s["expr"] is not None else "stdin"))
         rep.count("front:file:%s" % (s["file"] is not None))
-        if rc != 0 or so != pred:
+        if s.get("aborts"):
+            pass        # a session that ends in a known abort (K4): only its repeatability is judged
+        elif rc != 0 or so != pred:
             mism += 1
             if mism <= 5:
                 rep.violation("front: the binary's output differs from the in-process prediction for session %s" % describe(s), case=json_case(s),
                               impl=dict(rc=rc, stdout=so, stderr=se[-300:]), model=dict(predicted=pred), stream="front",
                               oracle="documented front-end contract: file first, then expression or prompt lines, each text with a final newline")
-        if any(o != outs[0] for o in outs[1:]):
+        if any(o[:2] != outs[0][:2] for o in outs[1:]):       # exit status and stdout (stderr carries the backtrace setting of a known abort)
             nondet += 1
             if nondet <= 5:
                 rep.violation("front: repeated runs of session %s differ" % describe(s), case=json_case(s),
